@@ -2,12 +2,14 @@
 \* of the six payload classes; the theorems also for every dependency-closed part of each graph.
 CONSTANTS
   Atomic = TRUE
+  SingleInPlace = FALSE
   DropDetached = TRUE
   Namespace = {1}
   M = 3
   MaxTs = 2
-  Classes = {"ok", "guest", "needs", "badSig", "rejectFirst", "rejectLater"}
+  Classes = {"ok", "guest", "label", "needs", "badSig", "rf.redactMissing.d", "rf.redactMissing.g", "rf.editMissing.d", "rf.editMissing.g", "rf.reactMissing.d", "rf.reactMissing.g", "rf.replyMissing.d", "rf.replyMissing.g", "rf.badTitle.d", "rf.badTitle.g", "rf.label.g", "rejectLater"}
   MaxBad = 3
+  FullCauses = 1
   AllowDetached = FALSE
   Emit = TRUE
   EmitMod = 1
